@@ -5,7 +5,7 @@ import ast
 from typing import Any
 
 from sa.cfg import CFG, calls_in
-from sa.guards import GuardWalk, is_opaque
+from sa.guards import opaque_note, GuardWalk, is_opaque
 from sa.kern import eval_kernel, make_evaluator, py_calls
 from sa.loopsum import (LoopSummariser, has_opaque, kvar, length_of, r_cell,
                         r_red, r_sum)
@@ -209,7 +209,8 @@ def _constructor(ctx: Ctx) -> None:
                     break
     ctx.ob("D5.4", new, rej[0].node if rej else new.node, bool(rej),
            "rows without a positive off-diagonal entry are rejected"
-           if rej else "no rejection of `farthest_neighbor <= 0`",
+           if rej else opaque_note(gw.exits, lambda e: len(e.loops) == 1)
+           + "no rejection of `farthest_neighbor <= 0`",
            construct="positive entry per row", nontrivial=False)
     # ---------------- symmetry flag
     marks = [m for m in gw.marks if m.name == sym_local]
@@ -331,6 +332,7 @@ def _copy_check(ctx: Ctx, new: FuncInfo, gw: GuardWalk, ev: Any,
                     ver = e
         if ver is None:
             ctx.ob("D5.3", new, c, False,
+                   opaque_note(gw.exits, lambda e: len(e.loops) == 2) +
                    "no complete entry-by-entry comparison of the unsafe "
                    "copy with its source was found",
                    construct="copy verified")
